@@ -3,6 +3,7 @@ package ast
 import (
 	"fmt"
 	"regexp"
+	"slices"
 	"strings"
 
 	"gopkg.in/yaml.v3"
@@ -141,6 +142,10 @@ func (t *Task) UnmarshalYAML(node *yaml.Node) error {
 		}
 		if err := node.Decode(&task); err != nil {
 			return errors.NewTaskfileDecodeError(err, node)
+		}
+		if slices.Contains(task.Sources, nil) || slices.Contains(task.Generates, nil) || slices.Contains(task.Platforms, nil) ||
+			(task.Requires != nil && slices.Contains(task.Requires.Vars, nil)) {
+			return errors.NewTaskfileDecodeError(nil, node).WithMessage("sources, generates, platforms and requires.vars cannot contain null entries")
 		}
 		if task.Cmd != nil {
 			if task.Cmds != nil {
